@@ -95,6 +95,7 @@ def main(argv):
             eng.pool = p
             eng.run()
             t_run = time.time() - t0
+            n_det, _ = eng.determinism_check()
             if os.environ.get("NSIM_LIST_SITES"):
                 for k in sorted(eng.found, key=lambda k: (k[1], str(k[2]))):
                     v = eng.found[k]
@@ -125,6 +126,8 @@ def main(argv):
             "never_fired": sorted(getattr(eng, "expected_kinds", set()) - set(k for k, v in eng.fired.items() if v)),
             "components": COMPONENTS,
             "max_budget_ratio": round(eng.max_ratio, 2),
+            "sim_ticks_total": eng.sim_ticks_total,
+            "determinism_sample": f"{n_det} runs of this invocation re-executed: identical event-log digests",
             "budget_ratio_limit": 1000,
             "known_findings_hit": [k.get("what") for k in known_hit],
             "distinct_violation_sites": len(eng.found),
